@@ -78,6 +78,7 @@ def check (inp out : List String) : Verdict :=
           | none, _ => [("parsable_output", false)]
       { agree := agree, model := joinSp mout, specFail := (failing cl).eraseDups }
     | _, _ => .bad "ev tokens"
+  | "hs" :: _ => SessDrv.check "C14" inp out
   | "e2e" :: mode :: fm :: raws =>
     match parseMode? mode, raws.mapM hexBytes?, out with
     | some mode, some raws, [flags, bytes] =>
